@@ -439,6 +439,15 @@ Definition parse_error_new (orig : bytes) (abs_start len : nat) : nat * nat * na
               end in
   (line, rel, len').
 
+(* the line ParseError keeps (and Display prints): from the start of the span's line to the next newline *)
+Definition error_line (orig : bytes) (abs_start : nat) : bytes :=
+  let '(_, line_start) := last_line_start orig 0 abs_start 0 0 in
+  let line_text := skipn line_start orig in
+  match find_nl line_text 0 with
+  | Some line_end => firstn line_end line_text
+  | None => line_text
+  end.
+
 (* (parse scheme settings #text) / (parse-value scheme settings #text)
    -> (ok ast) | (err Kind line column len) | (panic) | (fuel) *)
 Definition enc_parse {A} (enc : A -> sexp) (orig : bytes) (r : lres A) : sexp :=
@@ -450,7 +459,8 @@ Definition enc_parse {A} (enc : A -> sexp) (orig : bytes) (r : lres A) : sexp :=
       let lead := match trimmed with [] => O | _ => (List.length orig - List.length (trim_start orig))%nat end in
       let abs_start := (lead + (List.length trimmed - List.length at_))%nat in
       let '(line, col, len) := parse_error_new orig abs_start n in
-      SList [sym "err"; sym (lexerr_name k); SInt (Z.of_nat line); SInt (Z.of_nat col); SInt (Z.of_nat len)]
+      SList [sym "err"; sym (lexerr_name k); SInt (Z.of_nat line); SInt (Z.of_nat col); SInt (Z.of_nat len);
+             SBytes (error_line orig abs_start)]
   | LPanic => SList [sym "panic"]
   | LFuel => SList [sym "fuel"]
   end.
